@@ -328,7 +328,6 @@ func assignedLocal(f *FuncSrc, call *ast.CallExpr) *ast.Ident {
 	return out
 }
 
-
 // flagsRequired: which configuration flags must be set / unset for expr to evaluate to `want` (boolean locals
 // with a single definition are looked through).
 func flagsRequired(f *FuncSrc, info *types.Info, flagVars map[*types.Var]bool, expr ast.Expr, want bool, depth int) []string {
